@@ -412,6 +412,9 @@ example : SizesLE [⟨"city_council", 1, none, none, 0⟩, ⟨"measure_1", 2, no
 example : Wf exCards [⟨"city_council", 1, none, none, 0⟩, ⟨"measure_1", 2, none, none, 0⟩] :=
   ⟨by decide, by decide, by decide⟩
 example : PrevOk exCards [3, 1] := ⟨by decide, by decide⟩
+-- the initial state of an audit (nothing carried over) satisfies the hypotheses of `rounds_extend`
+example (cards : List Card) (cons : List Contest) : PrevOk cards [] ∧ JunkFree cards cons [] :=
+  ⟨⟨by simp, by simp⟩, fun i hi => by simp at hi⟩
 -- a flag that goes up at the second call although the third p-value is above the limit again
 example (limit p q : Rat) (hp : p ≤ limit) (hq : ¬ q ≤ limit) :
     provedHistory limit false [q, p, q] = [false, true, true] := by
